@@ -65,6 +65,14 @@ def collect_patterns(md=None):
         spec = BlockParser.SPECIFICATION[name]
         for w in (0, 1, 2, 3):
             pats["rt:listbreak[%s,%d]" % (name, w)] = (r"(?<=\n)" + (spec.replace("3", str(w), 1) if w < 3 else spec), re.M)
+    # `_parse_list_item` (list_parser.py): `if 'fenced_directive' in block.specification: list_item_breaks.insert(1, "fenced_directive")`, and the
+    # same textual replacement is applied to that pattern (its first "3" is the fence-length quantifier `{3,}`).  The pattern is the one a
+    # `FencedDirective` with custom markers registers: taken from the live configuration `all-fenced-colon`.
+    md3 = configs.make(configs.C("all-fenced-colon", plugins=configs.PLUGINS, directives="fenced-colon"))
+    if "fenced_directive" in md3.block.specification:
+        spec = md3.block.specification["fenced_directive"]
+        for w in (0, 1, 2, 3):
+            pats["rt:listbreak[fenced_directive,%d]" % w] = (r"(?<=\n)" + (spec.replace("3", str(w), 1) if w < 3 else spec), re.M)
     return pats
 
 
